@@ -155,6 +155,8 @@ type world struct {
 	nextT        time.Time
 	seen         map[string]bool
 	propsInBlock uint64
+	samplingTry  uint64 // oracle SamplingTryCount in the committed state
+	hung         bool
 	// bookkeeping
 	props    map[uint64]int // proposal id -> message type index
 	propMsgs map[uint64]sdk.Msg
@@ -381,6 +383,7 @@ func (w *world) beginBlock(dt time.Duration) {
 	w.seen = map[string]bool{}
 	w.propsInBlock = 0
 	w.env = w.makeEnv()
+	w.samplingTry = w.ch.App.OracleKeeper.GetParams(w.ctx).SamplingTryCount
 }
 
 func (w *world) makeEnv() *mutEnv {
@@ -511,7 +514,18 @@ var (
 // dkgTemplate builds the DKG message(s) of the given round (1, 2, 3 = confirm, 4 = complain).
 func (w *world) dkgTemplate(round int, t advTx) []built {
 	tk := w.ch.App.TSSKeeper
-	status := map[int]tsstypes.GroupStatus{1: tsstypes.GROUP_STATUS_ROUND_1, 2: tsstypes.GROUP_STATUS_ROUND_2, 3: tsstypes.GROUP_STATUS_ROUND_3, 4: tsstypes.GROUP_STATUS_ROUND_3}[round]
+	statusOf := map[int]tsstypes.GroupStatus{1: tsstypes.GROUP_STATUS_ROUND_1, 2: tsstypes.GROUP_STATUS_ROUND_2, 3: tsstypes.GROUP_STATUS_ROUND_3, 4: tsstypes.GROUP_STATUS_ROUND_3}
+	if t.B && round != 4 && len(w.groupsIn(statusOf[round])) == 0 {
+		// burst mode is helpful: when no group is in the round of this message type, the members of a group in creation
+		// send what its current round asks for (this is what lets key generations complete within a history)
+		for _, r := range []int{1, 2, 3} {
+			if len(w.groupsIn(statusOf[r])) > 0 {
+				round = r
+				break
+			}
+		}
+	}
+	status := statusOf[round]
 	var out []built
 	if gs := w.groupsIn(status); len(gs) > 0 {
 		g := pickOf(gs, t.sel(0))
@@ -756,8 +770,28 @@ func (w *world) template(ti int, t advTx) []built {
 	case "/band.tss.v1beta1.MsgComplain":
 		return w.dkgTemplate(4, t)
 	case "/band.tss.v1beta1.MsgSubmitDEs":
-		a := pickOf([]*sim.Account{u[0], u[1], u[2], u[uDelA], u[uDelB], u[uOut]}, s0)
-		return one(a, tsstypes.NewMsgSubmitDEs(w.wallet.Fresh(a.Addr.String(), 1+s1%3), a.Addr.String()))
+		pool := []*sim.Account{u[0], u[1], u[2], u[uDelA], u[uDelB], u[uOut]}
+		if !t.B {
+			a := pickOf(pool, s0)
+			return one(a, tsstypes.NewMsgSubmitDEs(w.wallet.Fresh(a.Addr.String(), 1+s1%3), a.Addr.String()))
+		}
+		// burst: every member of the signing groups tops up its nonce queue
+		var out []built
+		maxDE := ch.App.TSSKeeper.GetParams(ctx).MaxDESize
+		for _, a := range pool[:5] {
+			q := ch.App.TSSKeeper.GetDEQueue(ctx, a.Addr)
+			n := uint64(1 + s1%3)
+			if have := q.Tail - q.Head; have+n > maxDE || w.seen["de/"+a.Addr.String()] {
+				continue
+			}
+			w.seen["de/"+a.Addr.String()] = true
+			out = append(out, built{signer: a, msg: tsstypes.NewMsgSubmitDEs(w.wallet.Fresh(a.Addr.String(), int(n)), a.Addr.String())})
+		}
+		if len(out) == 0 {
+			a := pickOf(pool, s0)
+			return one(a, tsstypes.NewMsgSubmitDEs(w.wallet.Fresh(a.Addr.String(), 1), a.Addr.String()))
+		}
+		return out
 	case "/band.tss.v1beta1.MsgResetDE":
 		a := pickOf([]*sim.Account{u[0], u[1], u[2], u[uDelA], u[uDelB], u[uOut]}, s0)
 		return one(a, tsstypes.NewMsgResetDE(a.Addr.String()))
@@ -877,6 +911,13 @@ func (w *world) template(ti int, t advTx) []built {
 		}
 		m := pickOf(known, s0)
 		if len(inact) > 0 {
+			if t.B {
+				var out []built
+				for _, m := range inact {
+					out = append(out, built{signer: w.acct(m.Address), msg: bandtsstypes.NewMsgActivate(m.Address, m.GroupID)})
+				}
+				return out
+			}
 			m = pickOf(inact, s0)
 			return one(w.acct(m.Address), bandtsstypes.NewMsgActivate(m.Address, m.GroupID))
 		}
@@ -1083,7 +1124,7 @@ func (w *world) template(ti int, t advTx) []built {
 		return one(a, restaketypes.NewMsgUnstake(a.Addr, amt))
 	case "/band.restake.v1beta1.MsgUpdateParams":
 		p := ch.App.RestakeKeeper.GetParams(ctx)
-		p.AllowedDenoms = pickOf([][]string{{"uband"}, {"uband", "uatom"}, {"uatom"}, {}}, s0)
+		p.AllowedDenoms = pickOf([][]string{{"uband"}, {"uband", "uatom"}, {"uband"}, {"uatom", "uband"}, {"uatom"}, {}}, s0)
 		return one(nil, &restaketypes.MsgUpdateParams{Authority: sim.GovAuthority(), Params: p})
 	case "/band.globalfee.v1beta1.MsgUpdateParams":
 		p := ch.App.GlobalFeeKeeper.GetParams(ctx)
